@@ -596,6 +596,7 @@ NOISE_CYCLE = [1.0, 2.0, 1.0, 0.5, 1.0, 2.0, 1.0, 1.0, 4.0]        # per unmaske
 DATA_BASE = [0.5, -1.0, 2.0, -0.25, 1.0, 0.5, -2.0, 0.75, -0.5, 1.5, -0.75, 0.25, -1.5, 1.0, -0.5, 2.0, 0.5, -1.0, 0.25, -2.0]
 FUNC_M1 = [[1, 0], [1, 1], [0, 1], [2, 0], [1, 1], [0, 2], [1, 0], [0, 0], [0, 1]]      # two correlated profiles
 FUNC_M2 = [[1], [0], [1], [0], [3], [0], [1], [0], [1]]
+FUNC_OVERRIDE = [[0.5], [0.25], [1.0], [0.0], [2.0], [0.125], [0.75], [0.0], [1.5]]   # operated_mapping_matrix_override (dyadic)
 DIAG_ADD = 2.0 ** -10
 SUB_SIZE = 2             # over-sampling of the mapper: fractional mapping-matrix entries / data weights
 
@@ -642,9 +643,14 @@ def _linear_objs(aa, mask, dataset, objs, mesh):
     """objs: 'funcs' (two function lists), 'rect' (one rectangular mapper) or a '+'-joined order such as 'func+rect',
     'func+rect+func2' (mapper preceded / surrounded by function lists, so its parameters start at an offset)"""
     class Lin(aa.AbstractLinearObjFuncList):
-        def __init__(self, grid, M):
+        def __init__(self, grid, M, override=None):
             super().__init__(grid=grid, regularization=None)
             self._M = np.array(M, dtype=float)
+            self._override = None if override is None else np.array(override, dtype=float)
+
+        @property
+        def operated_mapping_matrix_override(self):
+            return self._override
 
         @property
         def params(self):
@@ -676,6 +682,10 @@ def _linear_objs(aa, mask, dataset, objs, mesh):
         elif name == "func":
             out.append(Lin(grid, FUNC_M2))
             shapes.append(None)
+        elif name == "funcov":
+            # function list that supplies its own operated (blurred) mapping matrix, different from the PSF-convolved one
+            out.append(Lin(grid, FUNC_M2, override=FUNC_OVERRIDE))
+            shapes.append(None)
         elif name == "func2":
             out.append(Lin(grid, [[r[1]] for r in FUNC_M1]))
             shapes.append(None)
@@ -694,10 +704,14 @@ def _reference_system(mask_arr, noise2d, lin_objs, data):
     for obj in lin_objs:
         M = np.array(hx.unwrap(obj.mapping_matrix), dtype=float)
         B = np.zeros_like(M)
-        for j in range(M.shape[1]):
-            frame = np.zeros(mask_arr.shape)
-            frame[un] = M[:, j]
-            B[:, j] = convolve2d(frame, psf, mode="same")[un]
+        ov = getattr(obj, "operated_mapping_matrix_override", None)
+        if ov is not None:
+            B = np.array(hx.unwrap(ov), dtype=float)      # the object's own blurred mapping matrix replaces the convolution
+        else:
+            for j in range(M.shape[1]):
+                frame = np.zeros(mask_arr.shape)
+                frame[un] = M[:, j]
+                B[:, j] = convolve2d(frame, psf, mode="same")[un]
         Bs.append(B)
         if obj.regularization is None:
             Hs.append(np.zeros((M.shape[1], M.shape[1])))
@@ -981,7 +995,8 @@ BOUNDS = {
              "solver with 2-3 image values symbolic and the others a fixed signed pattern: two linear-function objects (n=3, cold and warm), "
              "rectangular 3x5 mesh with force_edge_pixels_to_zeros (3 free parameters; mapping+cold, w_tilde+warm, Preloads history, "
              "force_edge_image_pixels_to_zeros); mapper preceded / surrounded by function lists ([func, mapper], [func, mapper, func], 3x3 mesh) "
-             "with edge forcing and with image_pixels_source_zero, both formalisms. Strongly correlated systems: 3 SPD matrices of n=5 (nearly collinear columns, condition "
+             "with edge forcing and with image_pixels_source_zero, both formalisms; function lists with an operated_mapping_matrix_override "
+             "(dyadic, different from the convolved mapping matrix) alone, with a second list and with a mapper, both solvers. Strongly correlated systems: 3 SPD matrices of n=5 (nearly collinear columns, condition "
              "numbers 1.5e3-7e3, entries on a 1/64 grid) with the right-hand side restricted to affine families b = b0 + sum t_k e_i, "
              "t_k symbolic in [-4,4], through a noise-like b0: all 5 coordinate segments (cold; 3 warm) per matrix and the plane (e_0,e_3) "
              "for two matrices (the full box is beyond nlsat for such matrices). Every solver comparison forks (decision margin 2^-30).",
@@ -1101,7 +1116,16 @@ def cases(tier):
     out.append(("case_inversion", _inv((3, 3), [3, 4], "func+rect", (3, 3), True, True, True, True, zero_pixels=[4])))
     out.append(("case_inversion", _inv((3, 3), [3, 4, 5], "func+rect+func2", (3, 3), False, True, False, True, zero_pixels=[4])))
     out.append(("case_inversion", _inv((3, 3), [3, 4, 5], "func+rect+func2", (3, 3), True, True, True, True)))
+    # function list with an operated_mapping_matrix_override (alone / with a second list / with a mapper), both solvers
+    out.append(("case_inversion", _inv((3, 3), ALL9, "funcov+func2", None, False, False, False, False)))
+    out.append(("case_inversion", _inv((3, 3), [3, 4], "funcov+func2", None, False, True, True, False)))
+    out.append(("case_inversion", _inv((3, 3), ALL9, "funcov+rect", (3, 3), False, False, False, False)))
+    out.append(("case_inversion", _inv((3, 3), [3, 4], "funcov+rect", (3, 3), False, True, False, True)))
+    out.append(("case_inversion", _inv((3, 3), [3, 4], "rect+funcov", (3, 3), True, True, True, True)))
     if thorough:
+        out.append(("case_inversion", _inv((3, 3), ALL9, "funcov", None, False, False, False, False)))
+        out.append(("case_inversion", _inv((3, 3), ALL9, "rect+funcov", (3, 5), True, False, False, False)))
+        out.append(("case_inversion", _inv((3, 3), [3, 4, 5], "funcov+rect+func2", (3, 3), False, True, True, True, zero_pixels=[4])))
         for wt in (False, True):
             out.append(("case_inversion", _inv((3, 3), [3, 4, 5], "func+rect", (3, 5), wt, True, not wt, True, zero_pixels=[4]), sp))
             out.append(("case_inversion", _inv((3, 3), [3, 4, 5], "func+rect+func2", (3, 5), wt, True, wt, True, zero_pixels=[3, 4]), sp))
